@@ -35,6 +35,7 @@ def run(ctx: Ctx) -> None:
                                      (METRICS, "Infidelity.evaluate"), (METRICS, "TraceDistance.evaluate")])
     rule_rep_dispatch(ctx)
     numeric.rule_hermitian_args(ctx, DMF, ["fidelity", "trace_distance"])
+    numeric.rule_spectral_sqrt(ctx)
     shapes.rule_trace_distance_shape(ctx)
     ctx.floor("num.adjoint", 15)
     ctx.floor("num.raise-warning", 8)
@@ -111,6 +112,8 @@ def rule_rep_dispatch(ctx: Ctx) -> None:
 
 
 KNOCKOUTS = [
+    Knockout("sqrtm-clip-at-tolerance", DMF, sub_once("    eig_vals = np.maximum(eig_vals, 0)\n", "    eig_vals = np.where(eig_vals > 1e-8, eig_vals, 0.0)\n"), "num.spectral-sqrt", "zeroes every eigenvalue below"),
+    Knockout("sqrtm-maximum-eps", DMF, sub_once("    eig_vals = np.maximum(eig_vals, 0)\n", "    eig_vals = np.maximum(eig_vals, 1e-12)\n"), "num.spectral-sqrt", "clips the eigenvalues at"),
     Knockout("branch-fidelity-unweighted", "graphiq/metrics.py", sub_once("[p_i * sfm.fidelity(tableau, t_i) for p_i, t_i in rep_data.mixture]", "[sfm.fidelity(tableau, t_i) for p_i, t_i in rep_data.mixture]"), "weight.fidelity", "not weighted"),
     Knockout("trace-distance-one-pure-shortcut", DMF, sub_once("    eigvals, _ = eigh(rho - sigma)\n", "    if is_pure(rho) or is_pure(sigma):\n        return np.sqrt(1.0 - np.real(np.trace(rho @ sigma)))\n    eigvals, _ = eigh(rho - sigma)\n"), "dist.shape", "shortcut not restricted"),
     Knockout("einsum-dropped-label-reversed", DMF, sub_once("string.ascii_uppercase[i] if i in keep else string.ascii_lowercase[i]", "string.ascii_uppercase[i] if i in keep else string.ascii_lowercase[ndim - 1 - i]"), "num.einsum-trace", "do not pair row i"),
